@@ -115,7 +115,7 @@ def run_e2e(ctx, n, tag):
     nontriv = 0
     for (name, fl, k, info), (rc, so, se) in zip(jobs, common.pmap(one, jobs)):
         text, defs, calls = cases[k]
-        if rc != 0 or so.strip().endswith("timeout"):
+        if rc != 0 or "timeout" in so.split("\n"):
             continue
         why = None
         if fl == ["-i"]:
